@@ -26,11 +26,20 @@ type mpEnv struct {
 	examined map[string]bool // "<list>@<mid>": the index list was searched in that round
 	member   map[string]bool // "<list>@<mid>": the search found the index
 	notes    []string
+	// calls of module helpers that are walked through rather than treated as one step
+	params  map[*ssa.Parameter]ssa.Value // helper parameter -> argument (resolved in the caller)
+	results map[*ssa.Call][]ssa.Value    // finished helper call -> what it returned on this path
+	frames  []mpFrame
+}
+
+type mpFrame struct {
+	call *ssa.Call
+	idx  int // position of the call in its block
 }
 
 func (e *mpEnv) clone() *mpEnv {
 	n := &mpEnv{phis: map[*ssa.Phi]ssa.Value{}, atoms: map[string]bool{}, visits: map[*ssa.BasicBlock]int{}, mid: e.mid,
-		examined: map[string]bool{}, member: map[string]bool{}}
+		examined: map[string]bool{}, member: map[string]bool{}, params: map[*ssa.Parameter]ssa.Value{}, results: map[*ssa.Call][]ssa.Value{}}
 	for k, v := range e.phis {
 		n.phis[k] = v
 	}
@@ -49,6 +58,15 @@ func (e *mpEnv) clone() *mpEnv {
 	n.order = append([]string{}, e.order...)
 	n.events = append([]string{}, e.events...)
 	n.notes = append([]string{}, e.notes...)
+	n.params = map[*ssa.Parameter]ssa.Value{}
+	for k, v := range e.params {
+		n.params[k] = v
+	}
+	n.results = map[*ssa.Call][]ssa.Value{}
+	for k, v := range e.results {
+		n.results[k] = v
+	}
+	n.frames = append([]mpFrame{}, e.frames...)
 	return n
 }
 
@@ -78,12 +96,37 @@ type roundWalker struct {
 	// hooks: how a branch condition reduces to an atom, and what an instruction contributes to the round's events
 	classifyFn func(v ssa.Value, env *mpEnv, at *ssa.BasicBlock) (kind int, key string, val bool)
 	eventFn    func(ins ssa.Instruction, env *mpEnv)
+	followFn   func(g *ssa.Function) bool // module helpers whose body is walked as part of the round
 }
 
 // resolve follows phis decided by the path and value-preserving conversions.
 func (w *roundWalker) resolve(v ssa.Value, env *mpEnv) ssa.Value {
 	for i := 0; i < 30; i++ {
 		switch x := v.(type) {
+		case *ssa.Parameter:
+			if env.params != nil {
+				if a, ok := env.params[x]; ok {
+					v = a
+					continue
+				}
+			}
+			return v
+		case *ssa.Extract:
+			if call, ok := x.Tuple.(*ssa.Call); ok && env.results != nil {
+				if res, ok := env.results[call]; ok && x.Index < len(res) {
+					v = res[x.Index]
+					continue
+				}
+			}
+			return v
+		case *ssa.Call:
+			if env.results != nil {
+				if res, ok := env.results[x]; ok && len(res) == 1 {
+					v = res[0]
+					continue
+				}
+			}
+			return v
 		case *ssa.Phi:
 			if r, ok := env.phis[x]; ok {
 				v = r
@@ -278,7 +321,7 @@ func (w *roundWalker) classify(v ssa.Value, env *mpEnv, at *ssa.BasicBlock) (kin
 		if x.Op == token.EQL || x.Op == token.NEQ {
 			// error test
 			if k, ok := x.Y.(*ssa.Const); ok && k.Value == nil && isErrorType(x.X.Type()) {
-				return ckAtom, sprintf("err#%d.%d", at.Index, env.visits[at]), x.Op == token.NEQ
+				return w.errAtom(x, env, at)
 			}
 			// element of an index list compared with the current index of the certificate loop
 			for _, pair := range [][2]ssa.Value{{x.X, x.Y}, {x.Y, x.X}} {
@@ -518,7 +561,16 @@ func (w *roundWalker) event(ins ssa.Instruction, env *mpEnv) {
 }
 
 func (w *roundWalker) walk(prev, b *ssa.BasicBlock, env *mpEnv) {
+	w.walkFrom(prev, b, 0, env)
+}
+
+// walkFrom continues a path at instruction from of block b (from > 0: after a helper call that has returned).
+func (w *roundWalker) walkFrom(prev, b *ssa.BasicBlock, from int, env *mpEnv) {
 	if w.paths > w.limit {
+		return
+	}
+	if from > 0 {
+		w.walkInstrs(b, from, env)
 		return
 	}
 	// a new round of an inner loop: forget the visit counts of its blocks
@@ -531,12 +583,13 @@ func (w *roundWalker) walk(prev, b *ssa.BasicBlock, env *mpEnv) {
 	if env.visits[b] > 3 {
 		return // beyond the unrolling bound
 	}
-	if b == w.region.head {
+	inHelper := len(env.frames) > 0
+	if b == w.region.head && !inHelper {
 		w.paths++
 		w.finish(env, "next")
 		return
 	}
-	if !w.region.body[b] {
+	if !w.region.body[b] && !inHelper {
 		if ret, ok := lastInstr(b).(*ssa.Return); ok {
 			w.paths++
 			if returnsNonNilError(ret) {
@@ -577,9 +630,26 @@ func (w *roundWalker) walk(prev, b *ssa.BasicBlock, env *mpEnv) {
 		name := w.listName(w.root(lp.src, env)) + "@" + sprintf("%d", env.mid)
 		env.examined[name] = true
 	}
-	for _, ins := range b.Instrs {
+	w.walkInstrs(b, 0, env)
+}
+
+func (w *roundWalker) walkInstrs(b *ssa.BasicBlock, from int, env *mpEnv) {
+	for idx := from; idx < len(b.Instrs); idx++ {
+		ins := b.Instrs[idx]
 		switch x := ins.(type) {
 		case *ssa.Return:
+			if n := len(env.frames); n > 0 {
+				// back to the caller: the call's results on this path
+				fr := env.frames[n-1]
+				var res []ssa.Value
+				for _, rv := range retResults(x) {
+					res = append(res, w.resolve(rv, env))
+				}
+				env.frames = env.frames[:n-1]
+				env.results[fr.call] = res
+				w.walkFrom(nil, fr.call.Block(), fr.idx+1, env)
+				return
+			}
 			w.paths++
 			if returnsNonNilError(x) {
 				w.finish(env, "error")
@@ -587,6 +657,25 @@ func (w *roundWalker) walk(prev, b *ssa.BasicBlock, env *mpEnv) {
 				w.finish(env, "return")
 			}
 			return
+		case *ssa.Call:
+			g := x.Call.StaticCallee()
+			if w.followFn != nil && g != nil && g.Blocks != nil && len(env.frames) < 2 && w.followFn(g) && !hasLoop(g) {
+				// walk through the helper
+				bind := map[*ssa.Parameter][]string{}
+				for i, q := range g.Params {
+					if i < len(x.Call.Args) {
+						a := w.resolve(x.Call.Args[i], env)
+						env.params[q] = a
+						bind[q] = uniq(w.pv.origins(a, 0))
+					}
+				}
+				env.frames = append(env.frames, mpFrame{x, idx})
+				w.pv.binds = append(w.pv.binds, bind)
+				w.walkFrom(nil, g.Blocks[0], 0, env)
+				w.pv.binds = w.pv.binds[:len(w.pv.binds)-1]
+				return
+			}
+			w.eventFn(ins, env)
 		case *ssa.Jump:
 			w.walk(b, b.Succs[0], env)
 			return
@@ -770,7 +859,7 @@ func ruleMergePaths(c *Ctx, r *Rep) {
 			if st, ok := ins.(*ssa.Store); ok {
 				if fa, ok := st.Addr.(*ssa.FieldAddr); ok && fieldOfAddr(fa).Name() == "Extensions" {
 					if _, isParamCopy := fa.X.(*ssa.Alloc); isParamCopy {
-						env0 := &mpEnv{phis: map[*ssa.Phi]ssa.Value{}}
+						env0 := &mpEnv{phis: map[*ssa.Phi]ssa.Value{}, params: map[*ssa.Parameter]ssa.Value{}, results: map[*ssa.Call][]ssa.Value{}}
 						w.region = closing
 						w.newRoot = w.root(st.Val, env0)
 					}
@@ -789,7 +878,7 @@ func ruleMergePaths(c *Ctx, r *Rep) {
 		r.Bad("starts-empty|"+fk, c.FnPos(fn), "the merged list starts empty", w.newRoot.String())
 	}
 	// nothing is appended to the merged list outside the two loops
-	env0 := &mpEnv{phis: map[*ssa.Phi]ssa.Value{}}
+	env0 := &mpEnv{phis: map[*ssa.Phi]ssa.Value{}, params: map[*ssa.Parameter]ssa.Value{}, results: map[*ssa.Call][]ssa.Value{}}
 	for _, b := range fn.Blocks {
 		if profLoop.body[b] || closing.body[b] {
 			continue
@@ -855,7 +944,7 @@ func ruleMergePaths(c *Ctx, r *Rep) {
 	}
 	for _, s := range closing.head.Succs {
 		if closing.body[s] && s != closing.head {
-			env := &mpEnv{phis: map[*ssa.Phi]ssa.Value{}, atoms: map[string]bool{}, visits: map[*ssa.BasicBlock]int{}, examined: map[string]bool{}, member: map[string]bool{}}
+			env := &mpEnv{phis: map[*ssa.Phi]ssa.Value{}, atoms: map[string]bool{}, visits: map[*ssa.BasicBlock]int{}, examined: map[string]bool{}, member: map[string]bool{}, params: map[*ssa.Parameter]ssa.Value{}, results: map[*ssa.Call][]ssa.Value{}}
 			w.walk(closing.head, s, env)
 		}
 	}
@@ -1004,7 +1093,7 @@ func ruleMergePaths(c *Ctx, r *Rep) {
 	}
 	for _, s := range profLoop.head.Succs {
 		if profLoop.body[s] && s != profLoop.head {
-			env := &mpEnv{phis: map[*ssa.Phi]ssa.Value{}, atoms: map[string]bool{}, visits: map[*ssa.BasicBlock]int{}, examined: map[string]bool{}, member: map[string]bool{}}
+			env := &mpEnv{phis: map[*ssa.Phi]ssa.Value{}, atoms: map[string]bool{}, visits: map[*ssa.BasicBlock]int{}, examined: map[string]bool{}, member: map[string]bool{}, params: map[*ssa.Parameter]ssa.Value{}, results: map[*ssa.Call][]ssa.Value{}}
 			w.walk(profLoop.head, s, env)
 		}
 	}
@@ -1112,40 +1201,41 @@ func rulePlanPaths(c *Ctx, r *Rep) {
 		r.Undecided("anchor:decision-function", "", "not found")
 		return
 	}
-	var plan *ssa.Function
-	var decCall *ssa.Call
-	for _, fn := range c.Funcs {
-		for _, ci := range callsIn(fn) {
-			if ci.Common().StaticCallee() == dec && fn != dec {
-				plan = fn
-				decCall, _ = ci.(*ssa.Call)
-			}
-		}
-	}
+	plan, decCall, decSite, helpers := c.plannerOf(dec)
 	if plan == nil || decCall == nil {
-		r.Undecided("anchor:planner", "", "the decision function has no caller")
+		r.Undecided("anchor:planner", "", "the decision function is not called from a work-list loop")
 		return
 	}
 	fk := c.FuncKey(plan)
 	pv := c.newProv()
-	if ex, ok := decCall.Call.Args[len(decCall.Call.Args)-1].(*ssa.Extract); ok {
+	// the configuration the decision is made on, in the planner's frame
+	cfgV := decCall.Call.Args[len(decCall.Call.Args)-1]
+	if prm, ok := cfgV.(*ssa.Parameter); ok && decSite != ssa.CallInstruction(decCall) {
+		for i, q := range decCall.Parent().Params {
+			if q == prm && i < len(decSite.Common().Args) {
+				cfgV = decSite.Common().Args[i]
+			}
+		}
+	}
+	if ex, ok := cfgV.(*ssa.Extract); ok {
 		if mc, ok := ex.Tuple.(*ssa.Call); ok {
 			pv.Opaque(mc.Call.StaticCallee())
 		}
 	}
-	cfgO := pv.Origins(decCall.Call.Args[len(decCall.Call.Args)-1])
+	cfgO := pv.Origins(cfgV)
 	if len(cfgO) != 1 {
 		r.Undecided("shape:"+fk, c.Pos(decCall.Pos()), "the configuration the decision is made on has several origins")
 		return
 	}
 	cfg := cfgO[0]
 	w := &roundWalker{c: c, fn: plan, pv: pv, loops: map[*ssa.BasicBlock]*mpLoop{}, names: map[ssa.Value]string{}, limit: 5000}
+	w.followFn = func(g *ssa.Function) bool { return helpers[g] }
 	for h, body := range naturalLoops(plan) {
 		w.loops[h] = &mpLoop{head: h, body: body, kind: "other"}
 	}
-	// the round: the outermost loop that contains the decision
+	// the round: the outermost loop that contains the decision (or the call that leads to it)
 	for _, lp := range w.loops {
-		if !lp.body[decCall.Block()] {
+		if !lp.body[decSite.Block()] {
 			continue
 		}
 		if w.region == nil || lp.body[w.region.head] {
@@ -1158,14 +1248,22 @@ func rulePlanPaths(c *Ctx, r *Rep) {
 	}
 	// how the set of planned aliases is consulted: comma-ok (presence) or by value
 	presence := false
-	for b := range w.region.body {
-		for _, ins := range b.Instrs {
-			if lk, ok := ins.(*ssa.Lookup); ok && lk.CommaOk {
-				if _, isMap := lk.X.Type().Underlying().(*types.Map); isMap {
-					presence = true
+	scan := func(bs []*ssa.BasicBlock) {
+		for _, b := range bs {
+			for _, ins := range b.Instrs {
+				if lk, ok := ins.(*ssa.Lookup); ok && lk.CommaOk {
+					if _, isMap := lk.X.Type().Underlying().(*types.Map); isMap {
+						presence = true
+					}
 				}
 			}
 		}
+	}
+	for b := range w.region.body {
+		scan([]*ssa.BasicBlock{b})
+	}
+	for g := range helpers {
+		scan(g.Blocks)
 	}
 	isPlannedLookup := func(lk *ssa.Lookup) bool {
 		if _, isMap := lk.X.Type().Underlying().(*types.Map); !isMap {
@@ -1213,7 +1311,7 @@ func rulePlanPaths(c *Ctx, r *Rep) {
 				}
 			}
 			if k, ok := x.Y.(*ssa.Const); ok && k.Value == nil && isErrorType(x.X.Type()) && (x.Op == token.EQL || x.Op == token.NEQ) {
-				return ckAtom, sprintf("err#%d.%d", at.Index, env.visits[at]), x.Op == token.NEQ
+				return w.errAtom(x, env, at)
 			}
 			// any other comparison: an atom of its own, named by what is compared
 			switch x.Op {
@@ -1349,7 +1447,7 @@ func rulePlanPaths(c *Ctx, r *Rep) {
 	}
 	for _, s := range w.region.head.Succs {
 		if w.region.body[s] && s != w.region.head {
-			env := &mpEnv{phis: map[*ssa.Phi]ssa.Value{}, atoms: map[string]bool{}, visits: map[*ssa.BasicBlock]int{}, examined: map[string]bool{}, member: map[string]bool{}}
+			env := &mpEnv{phis: map[*ssa.Phi]ssa.Value{}, atoms: map[string]bool{}, visits: map[*ssa.BasicBlock]int{}, examined: map[string]bool{}, member: map[string]bool{}, params: map[*ssa.Parameter]ssa.Value{}, results: map[*ssa.Call][]ssa.Value{}}
 			w.walk(w.region.head, s, env)
 		}
 	}
@@ -1373,7 +1471,7 @@ func rulePlanPaths(c *Ctx, r *Rep) {
 		r.Check(len(rw.bad) == 0, "row|"+name, pos, expl[name]+sprintf(" (%d path completions)", len(rw.ok)+len(rw.bad)), strings.Join(head(uniq(rw.bad), 2), " ;; "))
 	}
 	// the decision is consulted for the entity of this round, on its merged configuration (PROV-PLAN checks the arguments)
-	r.Check(w.region.body[decCall.Block()], "decision-in-round|"+fk, c.Pos(decCall.Pos()), "the decision is made once per round", "ok")
+	r.Check(w.region.body[decSite.Block()], "decision-in-round|"+fk, c.Pos(decCall.Pos()), "the decision is made once per round", "ok")
 	r.Infof("PLAN-PATHS: %d paths walked through one round of %s", w.paths, fk)
 }
 
@@ -1433,4 +1531,80 @@ func isJSONEqualHelper(f *ssa.Function) bool {
 		okEq = true
 	}
 	return okEq
+}
+
+// plannerOf finds the function whose work-list loop leads to the decision function: the decision's caller when the call
+// sits in a loop there, else the function that calls that caller (two levels) from a loop. It returns the planner, the
+// call of the decision function, the call in the planner's loop that leads to it, and the same-package helpers the
+// planner's loop calls (their bodies are part of a round).
+func (c *Ctx) plannerOf(dec *ssa.Function) (*ssa.Function, *ssa.Call, ssa.CallInstruction, map[*ssa.Function]bool) {
+	var decCall *ssa.Call
+	for _, fn := range c.Funcs {
+		for _, ci := range callsIn(fn) {
+			if ci.Common().StaticCallee() == dec && fn != dec {
+				decCall, _ = ci.(*ssa.Call)
+			}
+		}
+	}
+	if decCall == nil {
+		return nil, nil, nil, nil
+	}
+	helpersOf := func(plan *ssa.Function) map[*ssa.Function]bool {
+		hs := map[*ssa.Function]bool{}
+		for _, ci := range callsIn(plan) {
+			g := ci.Common().StaticCallee()
+			if g == nil || !c.InModule(g) || g.Blocks == nil || g.Pkg != plan.Pkg || g == dec || hasLoop(g) || !inLoop(ci.Block()) {
+				continue
+			}
+			// helpers that take part in the decision or its bookkeeping: they reach the decision, or touch a map / append
+			touches := false
+			for _, b := range g.Blocks {
+				for _, ins := range b.Instrs {
+					switch x := ins.(type) {
+					case *ssa.MapUpdate, *ssa.Lookup:
+						touches = true
+					case *ssa.Call:
+						if x.Call.StaticCallee() == dec {
+							touches = true
+						}
+					}
+				}
+			}
+			if touches {
+				hs[g] = true
+			}
+		}
+		return hs
+	}
+	f0 := decCall.Parent()
+	if inLoop(decCall.Block()) {
+		return f0, decCall, decCall, helpersOf(f0)
+	}
+	for _, fn := range c.Funcs {
+		for _, ci := range callsIn(fn) {
+			if ci.Common().StaticCallee() == f0 && inLoop(ci.Block()) {
+				return fn, decCall, ci, helpersOf(fn)
+			}
+		}
+	}
+	return nil, decCall, nil, nil
+}
+
+// errAtom classifies `e != nil` / `e == nil`: an error that a walked helper handed back is known on this path (nil, or
+// freshly made); any other error value is an atom of its own, the same wherever it is tested.
+func (w *roundWalker) errAtom(x *ssa.BinOp, env *mpEnv, at *ssa.BasicBlock) (int, string, bool) {
+	e := w.resolve(x.X, env)
+	if k, ok := e.(*ssa.Const); ok && k.Value == nil {
+		return ckConst, "", x.Op == token.EQL
+	}
+	if definitelyNonNilErr(e, at) {
+		if _, isExtract := e.(*ssa.Extract); !isExtract {
+			return ckConst, "", x.Op == token.NEQ
+		}
+	}
+	name := e.Name()
+	if e.Parent() != nil {
+		name = e.Parent().Name() + "." + name
+	}
+	return ckAtom, sprintf("err#%s.%d", name, env.visits[at]), x.Op == token.NEQ
 }
